@@ -319,6 +319,8 @@ pub struct Inner {
     pub record_flush_times: bool,
     /// feed the grid emulator (off for pure text capture on very wide terminals)
     pub emulate: bool,
+    /// the width reported to the code under test when it differs from the grid (0-column terminals)
+    pub report_cols: Option<u16>,
 }
 
 #[derive(Clone, Debug)]
@@ -346,13 +348,18 @@ impl VTerm {
             flush_times: vec![],
             record_flush_times: false,
             emulate: true,
+            report_cols: None,
         })))
     }
 
     /// Text capture only: no grid emulation (any size is cheap).
     pub fn raw(rows: usize, cols: usize) -> Self {
-        let v = Self::new(rows, cols);
+        let v = Self::new(rows, cols.max(1));
         v.lock().emulate = false;
+        if cols == 0 {
+            // a terminal that reports zero columns (nothing is emulated in raw mode)
+            v.lock().report_cols = Some(0);
+        }
         v
     }
 
@@ -543,7 +550,7 @@ impl TermLike for VTerm {
     fn width(&self) -> u16 {
         let mut g = self.lock();
         g.nqueries += 1;
-        g.grid.cols as u16
+        g.report_cols.unwrap_or(g.grid.cols as u16)
     }
     fn height(&self) -> u16 {
         let mut g = self.lock();
